@@ -31,6 +31,8 @@ def concretize(model, v, st: State, window, depth=0):
     ev = lambda t: model.eval(t, model_completion=True)
     if isinstance(v, Alias):
         v = st.read(v.loc)
+    if hasattr(v, 'concretize_model'):
+        return v.concretize_model(ev)
     if isinstance(v, VInt):
         r = ev(v.t)
         return r.as_long() if z3.is_int_value(r) else None
